@@ -422,10 +422,27 @@ def kernels_value(ctx):
         o = off if isinstance(off, Rat) else Rat(Poly.const(off))
         c = o.const_value()
         return Rat(Poly.var("%s[%s]" % (base, int(c) if c is not None and c.denominator == 1 else repr(o))))
-    i, j = Rat(Poly.var("i")), Rat(Poly.var("j"))
     for kern, tri, timed in (("dist_mic", False, False), ("dist_mic_t", False, True), ("dist_mic_triclinic", True, False), ("dist_mic_triclinic_t", True, True)):
         fn = cf.function(GEO, kern)
-        ex = SymExec(cf, GEO, symbolic_loops={"i", "j", "x", "y", "z"})
+        # the loops by role, whatever their variables are called: frames (bound n_frames / n_times), pairs (bound n_pairs), images ({-1,0,1}, outermost first)
+        roles, images = {}, []
+        for n_ in C.walk(fn):
+            if n_["kind"] != "ForStmt":
+                continue
+            nm, vals = _loop_values(n_)
+            m_ = re.match(r"^\((\w+)<(\w+)\)$", _norm(C.text(C.kids(n_)[1])))
+            if m_ and m_.group(1) == nm and m_.group(2) in ("n_frames", "n_times"):
+                roles["frame"] = (nm, n_)
+            elif m_ and m_.group(1) == nm and m_.group(2) == "n_pairs":
+                roles["pair"] = (nm, n_)
+            else:
+                images.append((nm, n_, vals))       # a candidate image loop; its value set (None: bounds not literal) is an obligation below
+        if "pair" in roles:
+            images = [im for im in images if im[0] is not None and any(x_ is im[1] for x_ in C.walk(roles["pair"][1]))]     # the loops inside the pair loop
+        if "frame" not in roles or "pair" not in roles or (tri and len(images) != 3):
+            raise AnalysisError("%s: the loops over frames, pairs%s were not found (%s, %d image loops)" % (kern, " and images" if tri else "", sorted(roles), len(images)))
+        i, j = Rat(Poly.var(roles["frame"][0])), Rat(Poly.var(roles["pair"][0]))
+        ex = SymExec(cf, GEO, symbolic_loops={roles["frame"][0], roles["pair"][0]} | {im[0] for im in images})
         try:
             outs = ex.run(C.kids(C.body_of(fn)), State())
         except Unsupported as e:
@@ -468,7 +485,7 @@ def kernels_value(ctx):
             for vec, comp in ((b3, 2), (b2, 1), (b1, 0)):
                 f = rnd(w[comp] * rec[comp])
                 w = [w[k] - vec[k] * f for k in range(3)]
-            x, y, z = Rat(Poly.var("x")), Rat(Poly.var("y")), Rat(Poly.var("z"))
+            x, y, z = [Rat(Poly.var(im[0])) for im in images]
             cand = [w[k] + b1[k] * x + b2[k] * y + b3[k] * z for k in range(3)]
         got = [o.env.get(("displacement_out", k)) for k in range(3)]
         okd = all(g is not None and g == c for g, c in zip(got, cand))
@@ -480,7 +497,7 @@ def kernels_value(ctx):
         want = ex.opaque_call("sqrt", [d2])
         ctx.decide(dist is not None and dist == want, "C05-R4", C.line(fn), GEO, kern, "distance = |stored displacement|", "", "the distance stored is %s" % (repr(dist)[:160]))
         # the box of frame i: every load of box_matrix sits inside the frame loop (the pointer advances once per frame)
-        floops = [n_ for n_ in C.walk(fn) if n_["kind"] == "ForStmt" and _norm(C.text(C.kids(n_)[1])) in ("(i<n_frames)", "(i<n_times)")]
+        floops = [roles["frame"][1]]
         inside = {id(x) for l_ in floops for x in C.walk(l_)}
         loads = [n_ for n_ in C.walk(fn) if n_["kind"] == "ArraySubscriptExpr" and C.root_var(n_)[0] == "box_matrix"]
         outside = [n_ for n_ in loads if id(n_) not in inside]
@@ -489,14 +506,11 @@ def kernels_value(ctx):
                    % (C.line(outside[0]) if outside else "?"))
         if tri:
             # the image loops: generic iteration over x, y, z in {-1,0,1}; the update keeps the candidate whose squared length is not larger
-            rng = {}
-            for n_ in C.walk(fn):
-                if n_["kind"] == "ForStmt":
-                    nm, vals = _loop_values(n_)
-                    if nm in ("x", "y", "z"):
-                        rng[nm] = vals
-            ctx.decide(rng == {"x": {-1, 0, 1}, "y": {-1, 0, 1}, "z": {-1, 0, 1}}, "C05-R4", C.line(fn), GEO, kern, "image loops enumerate {-1,0,1}^3", "",
-                       "image loops cover %s (some neighbouring images are never examined)" % {k: sorted(v) if v is not None else None for k, v in rng.items()})
+            # the three loops with literal bounds, nested in one another inside the pair loop, each over {-1,0,1}
+            nested = all(any(x_ is images[k_ + 1][1] for x_ in C.walk(images[k_][1])) for k_ in range(2)) and any(x_ is images[0][1] for x_ in C.walk(roles["pair"][1]))
+            cover = all(im[2] == {-1, 0, 1} for im in images)
+            ctx.decide(nested and cover, "C05-R4", C.line(fn), GEO, kern, "image loops enumerate {-1,0,1}^3", "",
+                       "image loops cover %s%s (some neighbouring images are never examined)" % ({im[0]: sorted(im[2]) if im[2] is not None else None for im in images}, "" if nested else ", not nested inside the pair loop"))
             sel = [c for c, p in o.cvals if p and ("<=" in c or "<" in c) and "sqrt" not in c]
             okc = False
             if sel:
